@@ -111,13 +111,13 @@ BaseCfg(p, kd, fr) ==
   [place |-> [c \in Checks |-> p[Idx(c)]],
    verd  |-> [c \in Checks |-> [s \in Stages |-> "?"]],
    only1 |-> {}, route |-> <<>>, path |-> "?", dmarc |-> "?", kind |-> kd,
-   mod |-> IF ModOn /\ kd = "pipe" THEN "?" ELSE "off", mfail |-> {}, from |-> fr,
+   mod |-> IF ModOn /\ kd = "pipe" THEN "?" ELSE "off", mfail |-> {}, from |-> fr, nafin |-> "?",
    nn |-> 0, cells |-> {}, fixed |-> FALSE]
 
 RemoteCfg ==
   [place |-> [c \in Checks |-> {}], verd |-> [c \in Checks |-> [s \in Stages |-> "none"]],
    only1 |-> {}, route |-> <<"D1">>, path |-> "atomic", dmarc |-> "off", kind |-> "remote",
-   mod |-> "off", mfail |-> {}, from |-> "addr", nn |-> 0, cells |-> {}, fixed |-> TRUE]
+   mod |-> "off", mfail |-> {}, from |-> "addr", nafin |-> "commit", nn |-> 0, cells |-> {}, fixed |-> TRUE]
 
 Idle == [st |-> "idle", op |-> "", r |-> "", items |-> <<>>, todo |-> <<>>, pend |-> {},
          rej |-> FALSE, anyrej |-> FALSE, gq |-> FALSE, tq |-> {}, tfail |-> FALSE, res |-> ""]
@@ -204,6 +204,9 @@ KindOf(op) == CASE op = "start" -> "cs" [] op = "rcpt" -> "rcpt" [] OTHER -> "bo
 
 OpenTargets == {t \in Targets : tg[t] = "open"}
 
+\* the queue's delivery has no BodyNonAtomic: the per-recipient path hands it the body with Body
+BodyOp(cf, t) == IF cf.path = "na" /\ ~(cf.kind = "qpipe" /\ t = "T1") THEN "bodyNA" ELSE "body"
+
 (* all checks of the command passed: what follows them (cf = configuration as revealed so far) *)
 AfterChecks(kk, dv, op, r, cf) ==
   CASE op = "start" ->
@@ -231,7 +234,7 @@ AfterChecks(kk, dv, op, r, cf) ==
             /\ metaQ' = IF skip THEN metaQ ELSE (metaQ \/ q1)
             /\ devs' = dv \cup (IF skip /\ q1 THEN {"NABody"} ELSE {})
             /\ run' = [Idle EXCEPT !.st = "tgt", !.op = op, !.r = r,
-                                   !.tq = {[t |-> t, op |-> IF cf.path = "na" THEN "bodyNA" ELSE "body"] : t \in OpenTargets}]
+                                   !.tq = {[t |-> t, op |-> BodyOp(cf, t)] : t \in OpenTargets}]
             /\ UNCHANGED used
 
 Proceed(kk, items, todo, dv, op, r, cf) ==
@@ -348,7 +351,7 @@ Tgt(x) ==
   /\ x.op = "rcpt" => [t |-> x.t, op |-> "start"] \notin run.tq
   /\ obs' = ObsTgt(obs, cfg, x.t, x.op, IF x.op = "rcpt" THEN run.r ELSE "", TgtRes(x), metaQ)
   /\ tg' = CASE x.op = "start" -> [tg EXCEPT ![x.t] = "open"]
-             [] x.op = "commit" -> [tg EXCEPT ![x.t] = "committed"]
+             [] x.op = "commit" -> [tg EXCEPT ![x.t] = IF @ = "relayed" THEN @ ELSE "committed"]
              [] x.op = "abort" -> [tg EXCEPT ![x.t] = "done"]
              [] OTHER -> tg
   /\ LET tf == run.tfail \/ TgtRes(x) # "ok" IN
@@ -381,11 +384,16 @@ Ret ==
                IF drv.i < Len(cfg.route) THEN drv' = more
                ELSE \/ drv' = stop
                     \/ ~cfg.fixed /\ drv.i < MaxRcpts /\ drv' = more     \* one more recipient
-          \* the callers of the per-recipient path (LMTPData, the queue) commit whatever the statuses were
-          [] run.op = "body" -> drv' = [drv EXCEPT !.ph = "fin",
-                                                   !.fin = IF ok \/ cfg.path = "na" THEN "commit" ELSE "abort"]
+          \* after a refused per-recipient body both endings occur: the LMTP endpoint and the queue commit
+          \* whatever the statuses were, other callers abort (cfg.nafin, revealed here)
+          [] run.op = "body" ->
+               \E f \in (IF ok THEN {"commit"} ELSE IF cfg.path # "na" THEN {"abort"}
+                         ELSE IF cfg.nafin = "?" THEN {"commit", "abort"} ELSE {cfg.nafin}) :
+                 /\ drv' = [drv EXCEPT !.ph = "fin", !.fin = f]
+                 /\ cfg' = IF ~ok /\ cfg.path = "na" THEN [cfg EXCEPT !.nafin = f] ELSE cfg
           [] OTHER -> drv' = [drv EXCEPT !.ph = "end"]
-  /\ UNCHANGED <<cfg, k, metaQ, used, tg, devs, delays, hist>>
+  /\ run.op # "body" => UNCHANGED cfg
+  /\ UNCHANGED <<k, metaQ, used, tg, devs, delays, hist>>
 
 (* the remote target is handed a message that is already flagged (by the queue) *)
 RemoteStart ==
@@ -403,8 +411,12 @@ RemoteRcpt ==
 (* the committed queue behind D1 hands the message, with the metadata it keeps, to its own target *)
 (* (on its own goroutine: any time after its Commit)                                               *)
 Relay ==
-  /\ cfg.kind = "qpipe" /\ tg["T1"] = "committed"
-  /\ obs' = ObsTgt(obs, cfg, "Q1", "relay", "", "ok", metaQ)
+  /\ cfg.kind = "qpipe"
+  \* committed, or inside its Commit call (which is observed when it has returned)
+  /\ \/ tg["T1"] = "committed"
+     \/ tg["T1"] = "open" /\ run.st = "tgt" /\ [t |-> "T1", op |-> "commit"] \in run.tq
+  \* its target is the real remote target, which refuses a flagged message
+  /\ obs' = ObsTgt(obs, cfg, "Q1", "relay", "", IF metaQ THEN "perm" ELSE "ok", metaQ)
   /\ tg' = [tg EXCEPT !["T1"] = "relayed"]
   /\ UNCHANGED <<cfg, drv, k, metaQ, used, run, devs, delays, hist>>
 
